@@ -439,7 +439,7 @@ class Parser:
             if self.peek() is not None and self.peek().kind in ('param', 'hole'):  # IN %s  (pymysql expands a tuple)
                 t = self.toks[self.i]
                 self.i += 1
-                item = N('param', text=t.text) if t.kind == 'param' else N('hole', text=t.text)
+                item = N('param', text=t.text, pos=t.pos) if t.kind == 'param' else N('hole', text=t.text)
                 return N('in', arg=left, items=[item], negated=neg)
             self.expect_op('(')
             if self.is_kw('SELECT'):
@@ -553,7 +553,7 @@ class Parser:
             return N('lit', value=body)
         if t.kind == 'param':
             self.i += 1
-            return N('param', text=t.text)
+            return N('param', text=t.text, pos=t.pos)
         if t.kind == 'hole':
             self.i += 1
             e = N('hole', text=t.text)
